@@ -5,6 +5,7 @@ package crashdb
 import (
 	"fmt"
 	"os"
+	"runtime/debug"
 	"runtime/pprof"
 
 	"verif/lib/dbh"
@@ -100,6 +101,14 @@ func withSync(c dbh.Config, sync bool) dbh.Config {
 func Main(o Oracle) {
 	// literal-crash children need the spec list of either tier
 	all := append(Specs(o, true), Specs(o, false)...)
+	// Every Open allocates (and zeroes) several MiB of arena/buffers. Collect rarely and keep
+	// the freed spans mapped: page faults dominate otherwise. Worker processes inherit the env.
+	if os.Getenv("GOMEMLIMIT") == "" {
+		_ = os.Setenv("GOMEMLIMIT", "768MiB")
+		_ = os.Setenv("GOGC", "off")
+		debug.SetMemoryLimit(768 << 20)
+		debug.SetGCPercent(-1)
+	}
 	MaybeChild(all)
 	r := vr.Start(string(o))
 	if pf := os.Getenv("VERIF_CRASHDB_PROF"); pf != "" && os.Getenv("VERIF_SHARD") == "" {
@@ -186,6 +195,7 @@ func replay(r *vr.Run, o Oracle, all []*Spec) {
 			r.Violation(v.sig, v.desc, v.replay)
 		}
 		pprof.StopCPUProfile()
+		fmt.Printf("timing materialize=%v open=%v read=%v close=%v\n", Timing[0], Timing[1], Timing[2], Timing[3])
 		r.Finish(vr.Coverage{Level: "fault_enumeration", Evaluations: p.Counters["images_recovered"], Distinct: p.Card("images"), Rule: "replay", Samples: []any{rp.Path}})
 	}
 	vr.Fatalf("replay: unknown config %q", rp.Config)
